@@ -24,6 +24,7 @@
 #include <string.h>
 #include <stdint.h>
 #include <stdbool.h>
+#include <math.h>
 #include <signal.h>
 #include <unistd.h>
 #include <sys/wait.h>
@@ -195,7 +196,9 @@ static void log_hist(int o)
     if (ts == NULL) return;
     const uint64_t n = ts->ds.count;
     fprintf(out, "{\"e\":\"Hist\",\"o\":%d,\"t\":%ld,\"n\":%llu,\"xs\":[", o, now(), (unsigned long long)n);
-    for (uint64_t k = 0; k < n && k < 5000u; k++) fprintf(out, "%s%ld", k ? "," : "", (long)ts->ds.xa[k]);
+    /* buffer levels are reported in the program's units (2^bufunit), like everything else about the buffer */
+    const double unit = (o == G_BUFF) ? ldexp(1.0, P.bufunit) : 1.0;
+    for (uint64_t k = 0; k < n && k < 5000u; k++) fprintf(out, "%s%ld", k ? "," : "", (long)(ts->ds.xa[k] / unit));
     fprintf(out, "],\"ts\":[");
     for (uint64_t k = 0; k < n && k < 5000u; k++) fprintf(out, "%s%ld", k ? "," : "", (long)ts->ta[k]);
     /* the library's time-weighted mean, scaled by the total duration: sum of value*duration, rounded */
@@ -204,7 +207,7 @@ static void log_hist(int o)
         struct cmb_wtdsummary ws;
         cmb_wtdsummary_initialize(&ws);
         (void)cmb_timeseries_summarize(ts, &ws);
-        const double mean = (cmb_wtdsummary_count(&ws) > 0u) ? cmb_wtdsummary_mean(&ws) : 0.0;
+        const double mean = ((cmb_wtdsummary_count(&ws) > 0u) ? cmb_wtdsummary_mean(&ws) : 0.0) / unit;
         const double tot = ts->ta[n - 1u] - ts->ta[0];
         wsum = (long)(mean * tot * 1000.0 + (mean * tot >= 0 ? 0.5 : -0.5));   /* milli-units */
         wtot = (long)tot;
